@@ -628,9 +628,14 @@ class _StringAttributeListBase(_AttributeListBase):
     Python representation is a list of strings.
     """
 
-    def __init__(self, attribute_name: str, value_converter: DataConverterProtocol | None = None):
+    def __init__(
+        self,
+        attribute_name: str,
+        value_converter: DataConverterProtocol | None = None,
+        is_optional: bool = True,
+    ):
         converter = value_converter or ListConverter(ClassCheckConverter(str))
-        super().__init__(attribute_name, converter)
+        super().__init__(attribute_name, converter, is_optional=is_optional)
 
 
 class HandleRefListAttributeProperty(_StringAttributeListBase):
@@ -1170,6 +1175,8 @@ class ContainerProperty(_ElementBase):
                 if MANDATORY_VALUE_CHECKING and not self.is_optional:
                     raise ValueError(f'mandatory value {self._sub_element_name} missing')  # noqa: EM102
                 etree.SubElement(node, self._sub_element_name, nsmap=node.nsmap)
+        elif self._sub_element_name is None:
+            py_value.update_node(node, self._ns_helper)  # the property describes the node itself
         else:
             self.remove_sub_element(node)
             sub_node = py_value.mk_node(self._sub_element_name, self._ns_helper, node)
@@ -1330,11 +1337,16 @@ class SubElementTextListProperty(_ElementListProperty):
 
     def __init__(self, sub_element_name: etree.QName | None, value_class: Any, is_optional: bool = True):
         super().__init__(sub_element_name, ListConverter(ClassCheckConverter(value_class)), is_optional=is_optional)
+        self._value_class = value_class
 
     def get_py_value_from_node(self, instance: Any, node: xml_utils.LxmlElement) -> Any:  # noqa: ARG002
         """Read value from node."""
         nodes = node.findall(self._sub_element_name)
-        return [_node.text for _node in nodes]
+        # libxml sets the text of an empty element to None: that is the empty string, not a missing value
+        texts = [_node.text or '' for _node in nodes]
+        if self._value_class is str:
+            return texts
+        return [self._value_class(text.strip()) for text in texts]
 
     def update_xml_value(self, instance: Any, node: xml_utils.LxmlElement):
         """Write value to node."""
